@@ -181,13 +181,21 @@ func generateRegexMatch(w io.Writer, lexerName, name, pattern string) error {
 	if len(flattened) == 1 && re.Op == syntax.OpLiteral {
 		n := len(string(re.Rune)) // length in bytes, as the generated code indexes bytes
 		if re.Flags&syntax.FoldCase != 0 {
-			fmt.Fprintf(w, "if p+%d <= len(s) && strings.EqualFold(s[p:p+%d], %q) {\n", n, n, string(re.Rune))
+			fmt.Fprintf(w, "np := func(p int) int {\n")
+			foldLiteral(w, string(re.Rune))
+			fmt.Fprintf(w, "}(p)\n")
+			fmt.Fprintf(w, "if np != -1 {\n")
+			fmt.Fprintf(w, "groups[0] = p\n")
+			fmt.Fprintf(w, "groups[1] = np\n")
+			fmt.Fprintf(w, "}\n")
+			fmt.Fprintf(w, "return\n")
+			fmt.Fprintf(w, "}\n")
+			return nil
+		}
+		if n == 1 {
+			fmt.Fprintf(w, "if p < len(s) && s[p] == %q {\n", re.Rune[0])
 		} else {
-			if n == 1 {
-				fmt.Fprintf(w, "if p < len(s) && s[p] == %q {\n", re.Rune[0])
-			} else {
-				fmt.Fprintf(w, "if p+%d <= len(s) && s[p:p+%d] == %q {\n", n, n, string(re.Rune))
-			}
+			fmt.Fprintf(w, "if p+%d <= len(s) && s[p:p+%d] == %q {\n", n, n, string(re.Rune))
 		}
 		fmt.Fprintf(w, "groups[0] = p\n")
 		fmt.Fprintf(w, "groups[1] = p + %d\n", n)
@@ -220,7 +228,9 @@ func generateRegexMatch(w io.Writer, lexerName, name, pattern string) error {
 				if n == 1 && !unicode.IsLetter(re.Rune[0]) {
 					fmt.Fprintf(w, "if p < len(s) && s[p] == %q { return p+1 }\n", re.Rune[0])
 				} else {
-					fmt.Fprintf(w, "if p+%d <= len(s) && strings.EqualFold(s[p:p+%d], %q) { return p+%d }\n", n, n, string(re.Rune), n)
+					foldLiteral(w, string(re.Rune))
+					fmt.Fprintf(w, "}\n")
+					continue
 				}
 			} else {
 				if n == 1 {
@@ -383,6 +393,20 @@ func generateRegexMatch(w io.Writer, lexerName, name, pattern string) error {
 	fmt.Fprintf(w, "return\n")
 	fmt.Fprintf(w, "}\n")
 	return nil
+}
+
+// foldLiteral emits the body of a func(p int) int that matches a case-insensitive literal.
+//
+// The comparison is made rune by rune: a character and its case-folded partner need not
+// have the same length in bytes (eg. "k" and the Kelvin sign, "s" and the long s).
+func foldLiteral(w io.Writer, literal string) {
+	fmt.Fprintf(w, "for _, want := range %q {\n", literal)
+	fmt.Fprintf(w, "if p >= len(s) { return -1 }\n")
+	fmt.Fprintf(w, "_, n := utf8.DecodeRuneInString(s[p:])\n")
+	fmt.Fprintf(w, "if !strings.EqualFold(s[p:p+n], string(want)) { return -1 }\n")
+	fmt.Fprintf(w, "p += n\n")
+	fmt.Fprintf(w, "}\n")
+	fmt.Fprintf(w, "return p\n")
 }
 
 // hasBackref reports whether the pattern contains a back-reference: a digit preceded
